@@ -339,6 +339,9 @@ func runC06(c *Ctx) {
 	r.Doc("N6", "the base-path candidates (uncrowded) are exactly the registered priorities with actual < strategic", 2)
 	r.Doc("N7", "the 'allotment filled' predicate answers true exactly when every listed priority has a non-zero allotment", 2)
 	r.Doc("N10", "(= E2 registration) a newly registered channel starts not drained, so it is read", 1)
+	r.Doc("N15", "(= X13) the simplified disciplines start exactly HandlersQuantity handlers on every successful construction (what is allotted can be handled)", 2)
+	checkHandlersStarted(c, c.V1, "N15")
+	checkHandlersStarted(c, c.V2, "N15")
 	r.Doc("N14", "a spending phase visits the list of registered priorities", 2)
 	r.Doc("N13", "every division into the allotment map starts from the emptied map (nearest event before it is the reset)", 3)
 	r.Doc("N12", "the may-proceed answer of a dividing function is the for-all over the list it just divided", 3)
